@@ -125,6 +125,9 @@ class C18(Harness):
                 nk = [k for k in NEWKEYS if k not in model]
                 if nk and len(fresh) > 1 and keys:
                     ops.append(['update', [[keys[0], enc(fresh[0])], [nk[0], enc(fresh[1])]]])
+                if nk and len(fresh) > 1:
+                    # one call carrying the same new key twice (a sequence of pairs): the later pair wins, as for a dict
+                    ops.append(['update', [[nk[0], enc(fresh[0])], [nk[0], enc(fresh[1])]], 'pairs'])
                 if nk:
                     ops.append(['updatekw', nk[-1], enc(x)])
             if keys:
@@ -280,6 +283,8 @@ class C18(Harness):
             o[op[1]] = dec(op[2])
             return None
         if kind == 'update':
+            if len(op) > 2:
+                return o.update([(k, dec(v)) for k, v in op[1]])
             return o.update({k: dec(v) for k, v in op[1]})
         if kind == 'updatekw':
             return o.update({}, **{op[1]: dec(op[2])})
